@@ -218,12 +218,15 @@ func ToMat64(t *Dense, opts ...FuncOpt) (retVal *mat.Dense, err error) {
 	r := t.Shape()[0]
 	c := t.Shape()[1]
 
+	// the bulk paths read the raw data from left to right: only valid when that is the row-major order of the elements
+	rawIsRowMajor := !t.IsMaterializable() && !t.DataOrder().IsColMajor() && t.len() == r*c
+
 	var data []float64
 	switch {
-	case t.t == Float64 && toCopy  && !t.IsMaterializable():
+	case t.t == Float64 && toCopy && rawIsRowMajor:
 		data = make([]float64, t.len())
 		copy(data, t.Float64s())
-	case !t.IsMaterializable():	
+	case rawIsRowMajor:
 		data = convToFloat64s(t)
 	default:
 		it := newFlatIterator(&t.AP)
